@@ -14,6 +14,9 @@ def _impl():
 
 
 def classify(kf, rec) -> bool:
+    import common
+    if common.repro_only(kf, rec):
+        return True
     c = rec["case"]
     cl = kf.get("classifier")
     if cl == "first-word-overflows-at-c0":
@@ -177,6 +180,14 @@ def run(chk: Check) -> None:
                          "nowrap: width<=0 must give exactly one line with the same words", classify)
     for c in cases[:3] + cases[-3:]:
         chk.sample({k: c[k] for k in ("text", "width", "c0", "c1", "md")} | {"impl_lines": outs.get(id(c))})
+    # listed with a fixed reproducer only (D-94): plaintext mode with width <= 0
+    from flowmark import reformat_text as _rt
+    doc = "a\nb  c\n\nd\ne"
+    out = _rt(doc, width=0, plaintext=True)
+    chk.count()
+    if any("\n" in p for p in out.split("\n\n")):
+        chk.fail("property", {"text": doc, "width": 0, "plaintext": True, "out": out, "repro": "D-94"},
+                 "plaintext, width 0: a paragraph is not one line: " + repr(out), classify)
 
 
 def replay(path: str) -> int:
